@@ -84,3 +84,23 @@ func init() {
 		Edits: []edit{{"segment/writer.go", "	if idx < w.info.BaseIndex || idx < w.info.MinIndex || idx > w.LastIndex() {\n		return 0, types.ErrNotFound\n	}\n	os := w.getOffsets()\n",
 			"	if idx < w.info.BaseIndex || idx < w.info.MinIndex {\n		return 0, types.ErrNotFound\n	}\n	if last := w.LastIndex(); idx > last {\n		return 0, types.ErrNotFound\n	}\n	os := w.getOffsets()\n"}}})
 }
+
+func init() {
+	// whole-identifier renames of unexported names: anchors must be found by role
+	addMutant(mutant{Name: "silent/rename-state-methods", Silent: true,
+		Renames: map[string]string{"firstIndex": "firstIdx", "lastIndex": "lastIdx", "getLog": "readEntry", "findSegmentReader": "readerFor", "getTailInfo": "tailInfo"}})
+	addMutant(mutant{Name: "silent/rename-state-type-and-txn", Silent: true,
+		Renames: map[string]string{"state": "snapshot", "stateTxn": "txnBody", "createNextSegment": "allocTail", "mutateStateLocked": "applyTxnLocked"}})
+	addMutant(mutant{Name: "silent/rename-state-release", Silent: true,
+		Renames: map[string]string{"release": "unpin", "acquire": "pin", "acquireState": "pinState"}})
+	addMutant(mutant{Name: "silent/rename-verifier-internals", Silent: true,
+		Renames: map[string]string{"verify": "checkRange", "updateVerifyState": "stepChecksum", "checksum": "runningSum", "sumStartIdx": "rangeStart", "runVerifier": "verifyLoop", "triggerVerify": "handOff"}})
+	addMutant(mutant{Name: "silent/rename-segment-functions", Silent: true,
+		Renames: map[string]string{"findFrameOffset": "locateFrame", "padLen": "padding", "encodedFrameSize": "frameSizeOnDisk", "readFrameHeader": "parseFrameHeader", "writeFrameHeader": "putFrameHeader"}})
+	addMutant(mutant{Name: "silent/rename-writer-fields", Silent: true,
+		Renames: map[string]string{"commitIdx": "durableIdx", "commitBuf": "pending", "writeOffset": "fileOffset", "indexStart": "sealOffset", "offsets": "entryOffsets"}})
+	addMutant(mutant{Name: "silent/rename-writer-crc", Silent: true,
+		Renames: map[string]string{"crc": "runningCRC"}})
+	addMutant(mutant{Name: "silent/rename-metadb-and-wal-fields", Silent: true,
+		Renames: map[string]string{"ensureOpen": "openOnce", "safeInitBoltDB": "createMetaDB", "codec": "entryCodec", "awaitRotate": "rotationDone", "triggerRotate": "rotateCh"}})
+}
